@@ -31,6 +31,9 @@ type unitRun struct {
 var dumpOnly bool
 var verifRoot = "/verif"
 
+// overlayFiles is the -overlay mapping (mutant testing), passed on to replay runs.
+var overlayFiles = map[string]string{}
+
 func main() {
 	var (
 		repo     = flag.String("repo", "/repo", "repository root")
@@ -74,6 +77,7 @@ func main() {
 				die(2, "overlay: %v", err)
 			}
 			overlay[k] = b
+			overlayFiles[k] = v
 		}
 	}
 	w, err := LoadWorld(*repo, []string{"./..."}, overlay)
@@ -483,7 +487,43 @@ func report(w *World, units []*unitRun, prop, tier, verif string, t0 time.Time, 
 		}
 		if u.Err != nil {
 			fmt.Fprintf(os.Stderr, "govc: ERROR %v\n", u.Err)
-			machineryErr = true
+			// The unit's obligations could not be generated from the current source (a loop or call the contract
+			// is anchored at is gone, a name it mentions no longer exists, the code left the verified subset). What
+			// was discharged for this unit on the pinned tree can no longer be discharged: every contract clause of
+			// the unit is reported as a failed obligation (status not-generated), i.e. a violation without a failing
+			// input - not silently as a machinery error. (While developing a contract the ERROR line above says why.)
+			if os.Getenv("GOVC_STRICT_ERRORS") != "" {
+				machineryErr = true
+				continue
+			}
+			mk := func(kind, name, src string) {
+				ob := &Oblig{Unit: u.Unit, Name: kind + ":" + name, Kind: kind, Desc: src, Contractual: true, Props: u.Fc.Props}
+				failed = append(failed, &Result{Ob: ob, Status: "not-generated", Backend: "structural", Output: "obligations of this unit could not be generated from the current source: " + u.Err.Error()})
+				total++
+			}
+			n0 := len(failed)
+			for i, c := range u.Fc.Ensures {
+				mk("post", clauseName(c, i), c.Src)
+			}
+			for k, cs := range u.Fc.CallSites {
+				for i, c := range cs.Requires {
+					mk("call-pre", k+"."+clauseName(c, i), c.Src)
+				}
+			}
+			for _, a := range u.Fc.Asserts {
+				mk("assert", a.Name, a.Src)
+			}
+			for n, ls := range u.Fc.Loops {
+				for i, c := range ls.Invariants {
+					mk("inv", fmt.Sprintf("loop%d.%s", n, clauseName(c, i)), c.Src)
+				}
+				for i, c := range ls.Steps {
+					mk("step", fmt.Sprintf("loop%d.%s", n, clauseName(c, i)), c.Src)
+				}
+			}
+			if len(failed) == n0 {
+				machineryErr = true
+			}
 			continue
 		}
 		funcs = append(funcs, u.Unit)
@@ -680,7 +720,11 @@ func tryReplay(w *World, r *Result, rep map[string]any) bool {
 	modelPath := filepath.Join(tmp, "model.json")
 	_ = os.WriteFile(modelPath, model, 0o644)
 	target := filepath.Join(w.repo, dir, "zz_govc_replay_test.go")
-	ov, _ := json.Marshal(map[string]any{"Replace": map[string]string{target: driver}})
+	repl := map[string]string{target: driver}
+	for k, v := range overlayFiles { // a mutant under test (-overlay) is replayed against the mutated source
+		repl[k] = v
+	}
+	ov, _ := json.Marshal(map[string]any{"Replace": repl})
 	ovPath := filepath.Join(tmp, "overlay.json")
 	_ = os.WriteFile(ovPath, ov, 0o644)
 	cmd := exec.Command("go", "test", "-overlay", ovPath, "-vet=off", "-v", "-count=1", "-timeout", "120s", "-run", "^TestGovcReplay$", ".")
